@@ -11,3 +11,8 @@ else
 fi
 exec 9>.build.lock; flock 9
 timeout ${VERIF_BUILD_TIMEOUT:-3000} make -f Makefile.coq -j${VERIF_JOBS:-16} "$@"
+# translation tie: regenerate Gallina from the current source and (re)check the link theorems (cached by content)
+if [ $# -eq 0 ] && [ -z "${VERIF_NO_LINKWARM:-}" ]; then
+  flock -u 9
+  (cd ../harness && PYTHONPATH=. timeout 1800 /venv/bin/python -m vp.link) || true
+fi
